@@ -17,7 +17,9 @@ Record cfg := {
   c_loadDTD : bool;
   c_disableDefault : bool;         (* fDisableDefaultEntityResolution *)
   c_stdUri : bool;                 (* fStandardUriConformant *)
-  c_limit : option nat             (* Some L: SecurityManager installed with entity expansion limit L *)
+  c_limit : option nat;            (* Some L: SecurityManager installed with entity expansion limit L *)
+  c_countDtd : bool                (* library switch (finding C19-F1): does the DTD scanner count its expansions
+                                      (parameter entities, general entities in attribute defaults) against L? *)
 }.
 
 
